@@ -12,6 +12,7 @@ import (
 	"sort"
 	"strings"
 	"sync"
+	"time"
 
 	corev1 "k8s.io/api/core/v1"
 	"k8s.io/klog"
@@ -370,7 +371,15 @@ func runCase(seed int64, idx int, pr params) *caseResult {
 					if err != nil {
 						continue
 					}
-					crashed := c.exec(op, map[int]world.InjectKind{k: kind}, nil)
+					crashed, wedged := execWatched(c, op, map[int]world.InjectKind{k: kind}, nil)
+					if wedged {
+						// the operation (or the monitors reading the IPAM right after it) did not return: a lock is held
+						// or a loop spins after the injected fault. That is C18's business ("does not keep a lock held");
+						// for the property in focus the run is inconclusive. The clone is abandoned.
+						res.counts["wedged_after_injected_fault"]++
+						res.inconcl = append(res.inconcl, fmt.Sprintf("operation %s did not return within 30 s after injection %s at call %d (lock held / spinning?)", op, kind, k))
+						continue
+					}
 					res.counts["injected_executions"]++
 					res.counts["injected_"+kind.String()]++
 					if len(c.W.In.Hit) > 0 || crashed {
@@ -438,6 +447,18 @@ func runCase(seed int64, idx int, pr params) *caseResult {
 	}
 	s.exec(Op{Kind: "quiesce"}, nil, nil)
 	return finish()
+}
+
+// execWatched runs exec under a generous wall-clock watchdog (inconclusive on expiry, never a verdict).
+func execWatched(c *Sim, op Op, plan map[int]world.InjectKind, prov map[int]bool) (crashed, wedged bool) {
+	done := make(chan bool, 1)
+	go func() { done <- c.exec(op, plan, prov) }()
+	select {
+	case crashed = <-done:
+		return crashed, false
+	case <-time.After(30 * time.Second):
+		return false, true
+	}
 }
 
 func injectable(kind string) bool {
